@@ -293,7 +293,8 @@ SN == <<>>
 SA == <<"hold", "get", "len", "push", "push", "get", "push", "hsetF">>
 SB == <<"get", "hold", "len", "push", "get", "push", "push", "hsetF">>
 SC == <<"hold", "len", "push", "get", "len", "push", "push", "get">>
-SD == <<"hold", "get", "len", "len", "get", "push", "hsetF", "get">>
+SD == <<"hold", "get", "len", "len", "push", "push", "get", "push", "hsetF">>
+SE == <<"hold", "len", "push", "push", "get", "push", "hsetF", "get">>
 On(x) == (OpSet = {} \/ x \in OpSet) /\ (Script = <<>> \/ (nops < Len(Script) /\ Script[nops + 1] = x))
 Commit(s, lbl) ==
   LET n == Norm(s) IN
